@@ -282,6 +282,57 @@ def unroll_constant_loops(proj, fn, fn_node, limit=8):
     return new
 
 
+def _fold_constants(proj, fn, node):
+    """Fold what became constant once the parameters were bound: built names, look-ups in literal tables (module / class level
+    dicts keyed by constants), and single-assignment locals that now hold a string constant — to a fixed point."""
+
+    def table(e):
+        v = None
+        if isinstance(e, ast.Dict):
+            v = e
+        elif isinstance(e, ast.Name):
+            r = proj.resolve_name(fn.module, e.id)
+            v = r[1][1] if (r and r[0] == "assign") else None
+        elif isinstance(e, ast.Attribute) and isinstance(e.value, ast.Name):
+            owner = None
+            if fn.cls is not None and e.value.id in ("self", "cls", fn.self_name or ""):
+                owner = fn.cls
+            else:
+                r = proj.resolve_name(fn.module, e.value.id)
+                owner = r[1] if (r and r[0] == "class") else None
+            m = owner.lookup(e.attr) if owner is not None else None
+            v = m[2] if (m and m[1] == "assign") else None
+        return v if isinstance(v, ast.Dict) and all(isinstance(k, ast.Constant) for k in v.keys) else None
+
+    class Tables(ast.NodeTransformer):
+        def visit_Subscript(self, n):
+            self.generic_visit(n)
+            if isinstance(n.ctx, ast.Load) and isinstance(n.slice, ast.Constant):
+                d = table(n.value)
+                if d is not None:
+                    for k, v in zip(d.keys, d.values):
+                        if k.value == n.slice.value and isinstance(v, ast.Constant):
+                            return ast.copy_location(ast.Constant(value=v.value), n)
+            return n
+
+    for _ in range(4):
+        before = ast.dump(node)
+        node.body = [_FoldStrings().visit(Tables().visit(st)) for st in node.body]
+        consts = {k: v for k, v in single_assignments(node).items() if isinstance(v, ast.Constant) and isinstance(v.value, str)}
+
+        class Prop(ast.NodeTransformer):
+            def visit_Name(self, x):
+                if isinstance(x.ctx, ast.Load) and x.id in consts:
+                    return ast.copy_location(ast.Constant(value=consts[x.id].value), x)
+                return x
+
+        if consts:
+            node.body = [Prop().visit(st) for st in node.body]
+        if ast.dump(node) == before:
+            break
+    return node
+
+
 class _FoldStrings(ast.NodeTransformer):
     """Constant folding of the ways a name is built from string constants: f"_{'x'}", "_" + "x", "_%s" % "x", "_{}".format("x")."""
 
@@ -484,19 +535,27 @@ class RobustPersistEngine(PersistEngine):
         # parameters of the helper that reach a gateway call as its route
         params = [x.arg for x in a.posonlyargs + a.args + a.kwonlyargs]
         used = set()
+        tdefs = single_assignments(target.node)
+
+        def through_locals(e):
+            """parameters a name-building expression depends on, single-assignment locals and table look-ups included:
+            `attribute = TABLE[association]; setattr(self, f"_{attribute}", v)` depends on `association`"""
+            if not isinstance(e, (ast.Name, ast.JoinedStr, ast.BinOp, ast.Subscript)) and not (
+                    isinstance(e, ast.Call) and isinstance(e.func, ast.Attribute) and e.func.attr == "format"):
+                return set()
+            if isinstance(e, ast.Name) and e.id not in tdefs:
+                return {e.id} & set(params)
+            return {y.id for y in ast.walk(expanded(e, target.node, tdefs)) if isinstance(y, ast.Name) and y.id in params}
+
         for c in ast.walk(target.node):
             if isinstance(c, ast.Call) and isinstance(c.func, ast.Attribute) and c.func.attr == GATEWAY:
                 _e, r = gateway_args(self.p, c)
-                r = expanded(r, target.node) if r is not None else None
-                if isinstance(r, ast.Name) and r.id in params:
-                    used.add(r.id)
+                if r is not None:
+                    used |= through_locals(r)
             elif isinstance(c, ast.Call):
                 # handed on to a further helper, possibly inside the name it builds: setattr(self, f"_{attribute}", value)
                 for x in list(c.args) + [k.value for k in c.keywords]:
-                    if isinstance(x, ast.Name) and x.id in params:
-                        used.add(x.id)
-                    elif isinstance(x, (ast.JoinedStr, ast.BinOp)) or (isinstance(x, ast.Call) and isinstance(x.func, ast.Attribute) and x.func.attr == "format"):
-                        used |= {y.id for y in ast.walk(x) if isinstance(y, ast.Name) and y.id in params}
+                    used |= through_locals(x)
             elif isinstance(c, ast.For) and isinstance(c.iter, ast.Name) and c.iter.id in params:
                 used.add(c.iter.id)  # the routes handed over as a sequence
         rebound = {x.id for x in ast.walk(target.node) if isinstance(x, ast.Name) and isinstance(x.ctx, (ast.Store, ast.Del))}
@@ -544,7 +603,8 @@ class RobustPersistEngine(PersistEngine):
                         return ast.copy_location(ast.Constant(value=v), x)
                     return x
 
-            node.body = [_FoldStrings().visit(S().visit(st)) for st in node.body]
+            node.body = [S().visit(st) for st in node.body]
+            node = _fold_constants(self.p, target, node)
             ast.fix_missing_locations(node)
             self._memo[key] = FuncInfo(name=target.name, module=target.module, node=node, cls=target.cls, kind=target.kind, prop=target.prop)
         return self._memo[key]
